@@ -6,7 +6,9 @@
 (* integers:                                                               *)
 (*   [k |-> "pow", s, e, o, third]  =  s * 2^e + o (+ 1/3 if third)        *)
 (*   [k |-> "fmax", fmt, s, d]      =  s * (largest finite of fmt + d/3)   *)
-(*   [k |-> "bool", b], [k |-> "str", s], [k |-> "set"]                    *)
+(*   [k |-> "bool", b], [k |-> "set"]                                      *)
+(*   [k |-> "str", cs]  a string as the sequence of its characters'       *)
+(*                      classes (CharClasses below)                        *)
 (* Compliant is evaluated on exponents; SymbolicMatchesExact checks it     *)
 (* against plain integer arithmetic wherever TLC can compute the value.    *)
 (***************************************************************************)
@@ -35,12 +37,19 @@ InRangeI(n, v) ==      \* -2^(n-1) <= v <= 2^(n-1) - 1
   IF v.s = 1 THEN CmpPow(v.e, v.o, n - 1, 0 - 1) <= 0
   ELSE IsZero(v) \/ CmpPow(v.e, 0 - v.o, n - 1, 0) <= 0          \* 2^e - o <= 2^(n-1)
 
+\* character classes: a = printable ASCII, c = ASCII control (tab, NUL, DEL), l = U+0080..U+00FF, w = other BMP letters,
+\* m = combining mark, x = beyond the BMP, s = lone surrogate (only expressible through an escape)
+CharClasses == {"a", "c", "l", "w", "m", "x", "s"}
+OneAscii(cs) == Len(cs) = 1 /\ cs[1] \in {"a", "c"}
+Strings == {<<>>} \cup { <<x>> : x \in CharClasses } \cup { <<x, y>> : x \in CharClasses, y \in CharClasses }
+           \cup { <<x, y, z>> : x \in {"a", "m", "l"}, y \in {"a", "m", "l"}, z \in {"a", "m", "l"} }
+
 Compliant(t, v) ==
   CASE t.k = "bool" -> v.k = "bool"
     \* the largest finite binary16 value, 65504, is an integer (the other formats' maxima exceed 64 bits)
     [] t.k = "u" -> \/ v.k = "pow" /\ ~v.third /\ InRangeU(t.n, v)
                     \/ v.k = "fmax" /\ v.fmt = 16 /\ v.d = 0 /\ v.s = 1 /\ t.n >= 16
-                    \/ v.k = "str" /\ v.s = "A" /\ t.n = 8              \* one ASCII character, 8-bit unsigned only
+                    \/ v.k = "str" /\ OneAscii(v.cs) /\ t.n = 8            \* one ASCII character, 8-bit unsigned only
     [] t.k = "i" -> \/ v.k = "pow" /\ ~v.third /\ InRangeI(t.n, v)
                     \/ v.k = "fmax" /\ v.fmt = 16 /\ v.d = 0 /\ t.n >= 17
     \* |s * 2^e + o (+ 1/3)| against the largest finite value: binary16 65504 = 2^16 - 32 admits e <= 15; the symbolic
@@ -57,7 +66,7 @@ ValuesFor(t) ==
   IN { [k |-> "pow", s |-> s, e |-> e, o |-> o, third |-> th] : s \in {1, 0 - 1}, e \in es, o \in {0 - 1, 0, 1}, th \in BOOLEAN }
      \cup { [k |-> "fmax", fmt |-> f, s |-> s, d |-> d] : f \in {16, 32, 64}, s \in {1, 0 - 1}, d \in {0 - 1, 0, 1} }
      \cup { [k |-> "bool", b |-> b] : b \in BOOLEAN }
-     \cup { [k |-> "str", s |-> x] : x \in {"", "A", "AB", "nonascii"} } \cup { [k |-> "set"] }
+     \cup { [k |-> "str", cs |-> x] : x \in Strings } \cup { [k |-> "set"] }
 
 Init == ph = 0 /\ case = [ty |-> [k |-> "bool"]] /\ out = FALSE
 PickType == ph = 0 /\ \E t \in Types : case' = [ty |-> t] /\ out' = FALSE /\ ph' = 1
